@@ -595,6 +595,25 @@ def check_termination(ctx, F, scope, loops_table, rec_table, rule="R-TERM"):
                 res = resolves_references(F, comp)
                 if res:
                     ok, how = False, "cycle tabled as structural now resolves references through %s" % res
+            # an input-bounded argument rests on where the outside callers start: re-verified on every run
+            if ok and r.get("entry_args"):
+                spec = r["entry_args"]
+                rxs = [re.compile(x) for x in spec["allowed"]]
+                seen = 0
+                for pth, cb in F.bodies.items():
+                    if pth in comp or any(pth.startswith(c_ + "::{closure") for c_ in comp):
+                        continue
+                    for c in cb.calls:
+                        if c.local and c.name in comp:
+                            seen += 1
+                            with cb.alpha(args=True):
+                                t = cb.sname(c.args[spec["arg"]], 8).replace("&", "").replace("*", "")
+                            if not any(rx.search(t) for rx in rxs):
+                                ok, how = False, "call from %s passes `%s` as argument %d, which is not one of the reviewed bounded starts" % (F.canon_of(cb), t, spec["arg"])
+                if ok and seen < spec.get("min_sites", 1):
+                    ok, how = False, "found %d outside call sites, expected at least %d" % (seen, spec.get("min_sites", 1))
+                if ok:
+                    how += " [%d outside call sites re-verified]" % seen
         else:
             ok, how = False, "unknown bound"
         ctx.ob(rule, "recursion|%s" % key, ok, how, where, what="recursion cycle %s: %s" % (key, how))
